@@ -53,6 +53,9 @@ pub fn install_panic_hook() {
             "panic".to_string()
         };
         let loc = info.location().map(|l| format!("{}:{}", l.file(), l.line())).unwrap_or_default();
+        if std::env::var("H2SIM_PANIC").is_ok() {
+            eprintln!("PANIC: {} @ {}\n{}", msg, loc, std::backtrace::Backtrace::force_capture());
+        }
         LAST_PANIC.with(|p| *p.borrow_mut() = format!("{} @ {}", msg, loc));
     }));
 }
@@ -116,6 +119,7 @@ pub fn run(scn: &Scenario, record: bool) -> RunResult {
         g.log(json!({"t": "cfg", "name": scn.name, "mode": mode, "real": {"c": real[0], "s": real[1]},
             "c": cfg_json(&scn.ccfg), "s": cfg_json(&scn.scfg),
             "peer": {"iws": pget(4, 65535), "maxc": pget(3, -1), "mfs": pget(5, 16384), "htz": pget(1, 4096), "push": pget(2, 1)},
+            "coop": scn.coop,
             "seed": scn.sched.seed as i64 & 0x7fff_ffff}));
     }
 
@@ -197,8 +201,9 @@ pub fn run(scn: &Scenario, record: bool) -> RunResult {
         }
         if scn.drop_sr_when_done && !sr_dropped && reg.sr.is_some() && reg.reqs_issued >= reg.reqs_total {
             sr_dropped = true;
-            reg.sr = None;
             Api { w: &w, ep: 0, task: "env" }.ev("drop_sr", 0, 0, "ok", json!({}));
+            let srh = reg.sr.take();
+            guarded_drop(&w, "drop_sr", move || drop(srh));
         }
 
         let mut choices: Vec<Ch> = vec![];
@@ -237,7 +242,7 @@ pub fn run(scn: &Scenario, record: bool) -> RunResult {
                     continue;
                 }
                 if let Some(op) = s.task.outstanding() {
-                    outs.push(json!({"ep": EP[s.task.ep()], "task": s.task.name(), "op": op}));
+                    outs.push(json!({"ep": EP[s.task.ep()], "task": s.task.name(), "op": op, "sid": s.task.cur_sid() as i64}));
                 }
             }
             let (wb, inflight) = {
@@ -283,6 +288,12 @@ pub fn run(scn: &Scenario, record: bool) -> RunResult {
                 if waiting_later && idle_rounds < 64 {
                     idle_rounds += 1;
                     continue;
+                }
+                let last_q = { let g = w.lock().unwrap(); g.rec.lines.iter().rev().find(|l| l.contains("\"t\":\"q\"")).cloned() };
+                if let Some(lq) = last_q {
+                    let mut v: serde_json::Value = serde_json::from_str(&lq).unwrap();
+                    v["t"] = json!("qf");
+                    w.lock().unwrap().log(v);
                 }
                 break;
             }
@@ -415,16 +426,47 @@ pub fn run(scn: &Scenario, record: bool) -> RunResult {
         let nq = reg.nq;
         w.lock().unwrap().log(json!({"t": "end", "steps": step as i64, "nq": nq, "panics": panics, "budget": budget}));
     }
-    // drop handles in a defined order, catching panics from poisoned locks
-    let _ = catch_unwind(AssertUnwindSafe(|| {
-        drop(slots);
+    // drop handles in a defined order: application handles first, then the connections.
+    // With the `unstable` feature h2's stream store asserts in Drop that no stream record
+    // is left; that assertion (or any other panic while dropping) is recorded as data.
+    let r = catch_unwind(AssertUnwindSafe(|| {
+        drop(spawn);
+        let mut conns = vec![];
+        for s in slots.drain(..) {
+            if s.task.is_conn() {
+                conns.push(s);
+            }
+        }
         drop(reg);
+        drop(conns);
     }));
+    if r.is_err() {
+        let msg = LAST_PANIC.with(|p| p.borrow().clone());
+        let mut g = match w.lock() {
+            Ok(g) => g,
+            Err(p) => p.into_inner(),
+        };
+        g.log(json!({"t": "drop_panic", "at": "end", "msg": msg}));
+    }
     let g = match w.lock() {
         Ok(g) => g,
         Err(p) => p.into_inner(),
     };
-    RunResult { lines: g.rec.lines.clone(), steps: step, nq: 0, panics, budget, events: g.rec.n_events }
+    RunResult { lines: g.rec.lines.clone(), steps: step, nq: 0, panics: panics + r.is_err() as usize, budget, events: g.rec.n_events }
+}
+
+/// Run a closure that drops handles; a panic (e.g. h2's debug assertion that the stream
+/// store is empty when it is dropped) is recorded as a `drop_panic` event.
+pub fn guarded_drop<F: FnOnce()>(w: &Shared, at: &str, f: F) {
+    let r = catch_unwind(AssertUnwindSafe(f));
+    if r.is_err() {
+        let msg = LAST_PANIC.with(|p| p.borrow().clone());
+        let mut g = match w.lock() {
+            Ok(g) => g,
+            Err(p) => p.into_inner(),
+        };
+        g.log(json!({"t": "drop_panic", "at": at, "msg": msg}));
+    }
 }
 
 fn do_env(op: &EnvOp, w: &Shared, slots: &mut Vec<Slot>, reg: &mut Registry, spawn: &mut Vec<Box<dyn Task>>, scn: &Scenario, _peer: &mut Option<Peer>) {
@@ -501,7 +543,13 @@ fn do_env(op: &EnvOp, w: &Shared, slots: &mut Vec<Slot>, reg: &mut Registry, spa
             for s in slots.iter_mut() {
                 if s.task.is_conn() && s.task.ep() == *ep && !s.done {
                     let mut sim = SimCtx { w, reg, spawn, scn };
-                    s.task.ctl(op, *n, &mut sim);
+                    let task = &mut s.task;
+                    let r = catch_unwind(AssertUnwindSafe(|| task.ctl(op, *n, &mut sim)));
+                    if r.is_err() {
+                        let msg = LAST_PANIC.with(|p| p.borrow().clone());
+                        let mut g = match w.lock() { Ok(g) => g, Err(p) => p.into_inner() };
+                        g.log(json!({"t": "drop_panic", "at": op, "msg": msg}));
+                    }
                     if op == "drop" {
                         s.done = true;
                     } else {
@@ -512,17 +560,20 @@ fn do_env(op: &EnvOp, w: &Shared, slots: &mut Vec<Slot>, reg: &mut Registry, spa
             }
         }
         EnvOp::DropSr => {
-            if reg.sr.take().is_some() {
+            if let Some(srh) = reg.sr.take() {
                 Api { w, ep: 0, task: "env" }.ev("drop_sr", 0, 0, "ok", json!({}));
+                guarded_drop(w, "drop_sr", move || drop(srh));
             }
         }
         EnvOp::Census => {
+            w.lock().unwrap().log(json!({"t": "census_begin"}));
             for s in slots.iter_mut() {
                 if !s.done {
                     let mut sim = SimCtx { w, reg, spawn, scn };
                     s.task.census(&mut sim);
                 }
             }
+            w.lock().unwrap().log(json!({"t": "census_end"}));
         }
         EnvOp::Ping { ep } => {
             for s in slots.iter_mut() {
